@@ -4,6 +4,9 @@
 #include <string.h>
 #include <unistd.h>
 #include "vi.h"
+#ifdef NEATVI_VERIF
+#include "verif.h"
+#endif
 
 #define NMARKS_BASE		('z' - 'a' + 3)
 #define NMARKS			32
@@ -33,6 +36,9 @@ struct lbuf {
 	int hist_u;		/* current undo head in hist[] */
 	int useq_zero;		/* useq for lbuf_saved() */
 	int useq_last;		/* useq before hist[] */
+#ifdef NEATVI_VERIF
+	int verif_id;		/* buffer identity in trace records */
+#endif
 };
 
 struct lbuf *lbuf_make(void)
@@ -43,6 +49,12 @@ struct lbuf *lbuf_make(void)
 	for (i = 0; i < LEN(lb->mark); i++)
 		lb->mark[i] = -1;
 	lb->useq = 1;
+#ifdef NEATVI_VERIF
+	{
+		static int verif_ids;
+		lb->verif_id = ++verif_ids;
+	}
+#endif
 	return lb;
 }
 
@@ -283,6 +295,19 @@ void lbuf_edit(struct lbuf *lb, char *buf, int beg, int end)
 		return;
 	lbuf_opt(lb, buf, beg, end - beg);
 	lbuf_replace(lb, buf, beg, end - beg);
+#ifdef NEATVI_VERIF
+	if (verif_on()) {
+		struct sbuf *sb = verif_rec("edit");
+		verif_int(sb, "lb", lb->verif_id);
+		verif_int(sb, "pos", beg);
+		verif_int(sb, "ndel", end - beg);
+		verif_int(sb, "seq", lb->useq);
+		verif_int(sb, "n", lb->ln_n);
+		verif_key(sb, "ins");
+		verif_hex(sb, buf, -1);
+		verif_emit(sb);
+	}
+#endif
 }
 
 char *lbuf_cp(struct lbuf *lb, int beg, int end)
@@ -325,6 +350,75 @@ int lbuf_jump(struct lbuf *lbuf, int mark, int *pos, int *off)
 	return 0;
 }
 
+#ifdef NEATVI_VERIF
+static void lbuf_verif_step(struct lbuf *lb, char *ev)
+{
+	if (verif_on()) {
+		struct sbuf *sb = verif_rec(ev);
+		verif_int(sb, "lb", lb->verif_id);
+		verif_int(sb, "hu", lb->hist_u);
+		verif_int(sb, "n", lb->ln_n);
+		verif_emit(sb);
+	}
+}
+
+/* describe lb without the side effect of lbuf_modified() */
+void lbuf_verif_dump(struct lbuf *lb, struct sbuf *sb, int full)
+{
+	unsigned long hash = 1469598103UL;
+	long bytes = 0;
+	int i, first = 1;
+	char *s;
+	sbuf_str(sb, "{\"id\":");
+	sbuf_printf(sb, "%d", lb->verif_id);
+	verif_int(sb, "n", lb->ln_n);
+	verif_int(sb, "useq", lb->useq);
+	verif_int(sb, "hn", lb->hist_n);
+	verif_int(sb, "hu", lb->hist_u);
+	verif_int(sb, "uzero", lb->useq_zero);
+	verif_int(sb, "ulast", lb->useq_last);
+	verif_int(sb, "dirty", (lb->hist_u ? lb->hist[lb->hist_u - 1].seq :
+				lb->useq_last) != lb->useq_zero);
+	for (i = 0; i < lb->ln_n; i++) {
+		for (s = lb->ln[i]; *s; s++, bytes++)
+			hash = ((hash ^ (unsigned char) *s) * 16777619UL) & 0x3fffffffUL;
+	}
+	verif_int(sb, "hash", hash);
+	verif_int(sb, "bytes", bytes);
+	verif_key(sb, "seqs");
+	sbuf_chr(sb, '[');
+	for (i = 0; i < lb->hist_n && lb->hist_n <= 256; i++)
+		sbuf_printf(sb, "%s%d", i ? "," : "", lb->hist[i].seq);
+	sbuf_chr(sb, ']');
+	verif_key(sb, "marks");
+	sbuf_chr(sb, '[');
+	for (i = 0; i < NMARKS; i++) {
+		if (lb->mark[i] >= 0) {
+			sbuf_printf(sb, "%s[%d,%d,%d]", first ? "" : ",",
+				i, lb->mark[i], lb->mark_off[i]);
+			first = 0;
+		}
+	}
+	sbuf_chr(sb, ']');
+	if (full && lb->ln_n <= 4096 && bytes <= (1 << 20)) {
+		verif_key(sb, "lines");
+		sbuf_chr(sb, '[');
+		for (i = 0; i < lb->ln_n; i++) {
+			if (i)
+				sbuf_chr(sb, ',');
+			verif_hex(sb, lb->ln[i], -1);
+		}
+		sbuf_chr(sb, ']');
+		verif_key(sb, "glob");
+		sbuf_chr(sb, '[');
+		for (i = 0; i < lb->ln_n; i++)
+			sbuf_printf(sb, "%s%d", i ? "," : "", lb->ln_glob[i]);
+		sbuf_chr(sb, ']');
+	}
+	sbuf_chr(sb, '}');
+}
+#endif
+
 int lbuf_undo(struct lbuf *lb)
 {
 	int useq, i;
@@ -338,6 +432,9 @@ int lbuf_undo(struct lbuf *lb)
 		for (i = 0; i < LEN(lb->mark); i++)
 			lbuf_loadmark(lb, lo, i);
 	}
+#ifdef NEATVI_VERIF
+	lbuf_verif_step(lb, "undo");
+#endif
 	return 0;
 }
 
@@ -352,6 +449,9 @@ int lbuf_redo(struct lbuf *lb)
 		lbuf_replace(lb, lo->ins, lo->pos, lo->n_del);
 		lbuf_loadpos(lb, lo);
 	}
+#ifdef NEATVI_VERIF
+	lbuf_verif_step(lb, "redo");
+#endif
 	return 0;
 }
 
@@ -373,6 +473,14 @@ void lbuf_saved(struct lbuf *lb, int clear)
 	}
 	lb->useq_zero = lbuf_seq(lb);
 	lbuf_modified(xb);
+#ifdef NEATVI_VERIF
+	if (verif_on()) {
+		struct sbuf *sb = verif_rec("saved");
+		verif_int(sb, "lb", lb->verif_id);
+		verif_int(sb, "clear", clear);
+		verif_emit(sb);
+	}
+#endif
 }
 
 /* was the file modified since the last lbuf_modreset() */
